@@ -242,8 +242,21 @@ def handleConvx (N : NumTy) (isRat : Bool) (vt coef consA consS pows v newObs ge
     if !isRat || !rtOk || rtPanics then .ok
     else if rtObs == N.showV v then .ok
     else .prop s!"{vt}.rt.oracle" "construct-then-read in one unit is not the identity for rational storage"
+  -- oracle (C08), stated on the conversion formula itself: exact for rational storage, truncated toward
+  -- zero for integer storage (`V.value` of the formula's exact rational value)
+  let fmla (tag : String) (exact : S.T) (obs : String) (ok panics : Bool) : Outcome :=
+    if panics || !ok || obs == "PANIC" then .ok
+    else
+      let want := N.showV (S.value exact)
+      if !(N.vOk (S.value exact)) then .ok
+      else if want == obs then .ok
+      else .prop s!"{vt}.{tag}" (if isRat then "result is not the exact rational value of the conversion formula"
+                                   else "result is not the exact rational value of the conversion formula truncated toward zero")
+  let newExact := S.div (S.mul (S.add cv consA) coef) f
+  let getExact := S.sub (S.div (S.mul cv f) coef) consS
   return ⟨[cmpS "new.model" mNew newObs toOk toPanics, cmpS "get.model" mGet getObs fromOk (fromPanics cv),
-           cmpS "rt.model" mRt rtObs rtOk rtPanics, rtOracle],
+           cmpS "rt.model" mRt rtObs rtOk rtPanics, rtOracle,
+           fmla "new.oracle" newExact newObs toOk toPanics, fmla "get.oracle" getExact getObs fromOk (fromPanics cv)],
           keys, !(N.eqV v mNew)⟩
 
 def strOutcome (tag : String) (model obs : Bytes) : Outcome :=
